@@ -49,7 +49,7 @@ def gen(chk, per_font):
                 jw = rng.choice((0.5, 1.0, 1.3, 2.0, 4.0))        # justify to this multiple of the natural width (second pass)
             ppms = [rng.choice(PPMS), '%.6g' % (rng.random() * 4096 + 1e-3), rng.choice((str(u), str(2 * u), str(3 * u), '%.6g' % (u / 2.0)))]
             if rng.random() < 0.3:      # an unhinted font made the other ways: an application handle but no callbacks
-                ppms[rng.randrange(3)] += rng.choice('na')
+                ppms[rng.randrange(3)] += rng.choice('naff')
             g = len(groups)
             lines = []
             for j, p in enumerate(['-'] + ppms):
@@ -124,7 +124,7 @@ STRUCT = (0, 1, 2, 3, 4, 5, 6, 7)      # gid, index, before, after, original, pa
 
 def compare(mt, base, other, ppm, slack_du=0.0):
     """base / other: parsed dumps (font NULL / font of ppm).  Returns None or a description of the first deviation."""
-    ppm = str(ppm).rstrip('na')
+    ppm = str(ppm).rstrip('naf')
     s = float(ppm) / mt['upem']
     if base['n'] != other['n'] or base['nc'] != other['nc']:
         return 'slot or char count differs: %d/%d vs %d/%d' % (base['n'], base['nc'], other['n'], other['nc'])
@@ -158,7 +158,7 @@ def just_lines(mt, g, lines, base):
     out = []
     f = lines[0].split()
     for j, p in enumerate(['-'] + mt['ppms']):
-        width = w * mt['jw'] * (1.0 if p == '-' else float(str(p).rstrip('na')) / mt['upem'])
+        width = w * mt['jw'] * (1.0 if p == '-' else float(str(p).rstrip('naf')) / mt['upem'])
         ff = list(f)
         ff[0] = 'j%d.%d' % (g, j); ff[7] = p
         out.append(' '.join(ff[:10]) + ' dump just:0:%.9g:0:-:- redump' % width)
